@@ -70,6 +70,15 @@ def configs(tier, seed):
             cfgs.append({"aw": aw, "dw": dw, "g": g, "ops": [["add", "a", dw + 1, None], ["add", "b", dw, None], ["add", "c", 2 * dw + 1, None]]})
             if top >= 8:
                 cfgs.append({"aw": aw, "dw": dw, "g": g, "ops": [["add", "a", dw, (top - 1) * k], ["add", "b", dw, None]]})   # cursor at the end
+    # an explicit offset that collides with an earlier multi-word register on its LAST word only / a later register that would cover an
+    # earlier one-word register with its last word only; and the adjacent placements, which are legal
+    for aw, dw, g in ((4, 8, 8), (5, 16, 8), (4, 32, 8)):
+        k = dw // g
+        cfgs.append({"aw": aw, "dw": dw, "g": g, "ops": [["add", "wide", 4 * dw, 0], ["add", "narrow", dw, 3 * k]]})           # last word of `wide`
+        cfgs.append({"aw": aw, "dw": dw, "g": g, "ops": [["add", "narrow", dw, 3 * k], ["add", "wide", 4 * dw, 0]]})           # the other order
+        cfgs.append({"aw": aw, "dw": dw, "g": g, "ops": [["add", "wide", 4 * dw, 0], ["add", "narrow", dw, 4 * k]]})           # adjacent: legal
+        cfgs.append({"aw": aw, "dw": dw, "g": g, "ops": [["add", "a", dw, 7 * k], ["add", "b", dw, 0], ["add", "wide", 4 * dw, None]]})   # implicit placement must skip nothing: 4..8 collides with a
+        cfgs.append({"aw": aw, "dw": dw, "g": g, "ops": [["add", "a", dw, 2 * k], ["add", "b", dw, 2 * k]]})                  # the same single word twice
     # very wide address spaces: offsets whose word address has more than 53 significant bits (exact integer arithmetic)
     for aw, dw, g in ((62, 32, 8), (56, 16, 8), (60, 8, 8), (64, 64, 16)):
         k = dw // g
@@ -217,6 +226,8 @@ def check_config(ctx, cfg):
                     last_reg = reg
             except (ValueError, TypeError) as e:
                 got = type(e).__name__
+            except Exception as e:          # an internal error (failing assert, IndexError ...) is neither acceptance nor a proper refusal
+                got = "internal-" + type(e).__name__
             if ev == "skip" or got == "skip":
                 continue
             if got != ev:
@@ -233,14 +244,17 @@ def check_config(ctx, cfg):
         raised = None
     except (ValueError, TypeError) as e:
         got_layout, raised = None, type(e).__name__
+    except Exception as e:
+        got_layout, raised = None, "internal-" + type(e).__name__
+        problems.append(f"as_memory_map() ended in an internal error: {type(e).__name__}")
     # asking again gives the same answer: a rejected layout is rejected again (nothing half-built is handed out later), an accepted
     # one yields the same placement
     try:
         mm2 = b.as_memory_map()
         again = [(tuple(n), s, e) for _, n, (s, e) in mm2.resources()]
         raised2 = None
-    except (ValueError, TypeError) as e:
-        again, raised2 = None, type(e).__name__
+    except Exception as e:
+        again, raised2 = None, type(e).__name__ if isinstance(e, (ValueError, TypeError)) else "internal-" + type(e).__name__
     same_answer = (again == got_layout and raised2 == raised)
     frozen_ok = True
     try:
@@ -264,7 +278,8 @@ def check_config(ctx, cfg):
             f"expected {exp_sorted}, got {got_layout} (raised {raised})" + ("" if same_answer else f"; a second as_memory_map() call gave {again} (raised {raised2})"))
         res("rejection_not_adjustment", True, "")
     res("frozen_refuses", frozen_ok, "add() after as_memory_map()/freeze() must raise ValueError")
-    res("names_are_scope_paths", not rej, "; ".join(rej))
+    internal = [p_ for p_ in problems if "internal error" in p_] + ([f"second as_memory_map(): {raised2}"] if str(raised2).startswith("internal-") else [])
+    res("names_are_scope_paths", not rej and not internal, "; ".join(rej + internal))
     ctx.nontrivial = expected is not None and len(expected) >= 2
 
 
